@@ -529,8 +529,22 @@ impl Run {
         }
         let t = usize::from(self.ctx.get_true());
         let f = usize::from(self.ctx.get_false());
+        // a few references unfolded into trees by the shared tree dumper (sharing expanded; small trees only)
+        let mut trees = vec![];
+        let step = (n / 24).max(1);
+        for r in (0..n).rev().step_by(step).take(24) {
+            let ctx = &self.ctx;
+            let er = ExprRef::from(r);
+            if let Ok(size) = guarded(|| crate::dump::tree_size(ctx, er, 300)) {
+                if size <= 300 {
+                    if let Ok(tree) = guarded(|| crate::dump::dump_expr(ctx, er)) {
+                        trees.push(format!("({r} {tree})"));
+                    }
+                }
+            }
+        }
         format!(
-            "(case {id} (ops {}) (res {}) (obs {}) (final {}) (strings {}) (tf0 {} {}) (tf {t} {f}) (shadow {}))",
+            "(case {id} (ops {}) (res {}) (obs {}) (final {}) (strings {}) (tf0 {} {}) (tf {t} {f}) (trees {}) (shadow {}))",
             self.ops_txt.join(" "),
             self.res_txt.join(" "),
             self.obs_txt.join(" "),
@@ -538,6 +552,7 @@ impl Run {
             strs.join(" "),
             tf0.0,
             tf0.1,
+            trees.join(" "),
             self.violations.join(" ")
         )
     }
